@@ -295,6 +295,9 @@ def work_formulas(idx, _chunk, seed, n):
             want = None
         # what the name denotes by rink's own documented resolution order: a unit, a substance, else a formula
         v, how = reg.lookup(name)
+        if render_name(name) != name:
+            part.count("name_not_a_plain_identifier")       # e.g. `UK` is an attribute word to the parser
+            continue
         if v is not None or name in reg.substances or name in reg.symbols or name in KEYWORDS:
             part.count("name_is_a_unit_or_substance")
             continue
